@@ -297,6 +297,33 @@ def leaf_bytes(A):
     return np.dtype(A.dtype).itemsize
 
 
+def live_units(A, k):
+    """largest tensor (in elements) that the code's own contraction order keeps alive for a product with k columns, as
+    a function of the factor shapes and their ORDER alone (coq/C19_Cost.v `kmax`, theorem C19_kron_rect_bound): for a
+    Kronecker product, the largest prefix size prod(rows of the factors already applied) * prod(columns of the
+    remaining ones) * k -- equal to n*k for square factors; recursively through the other structured kinds"""
+    c = type(A).__name__.split("[")[0]
+    rows, cols = A.shape
+    base = max(rows, cols) * k
+    if c == "Kronecker":
+        best, pre = base, 1
+        post = [1]
+        for M in reversed(A.Ms):
+            post.append(post[-1] * M.shape[1])
+        post = post[::-1]            # post[i] = product of the columns of factors i..end
+        for i, M in enumerate(A.Ms):
+            best = max(best, pre * post[i] * k, live_units(M, pre * post[i + 1] * k))
+            pre *= M.shape[0]
+        return max(best, pre * k)
+    if c == "BlockDiag":
+        return max([base] + [live_units(M, k * int(m)) for M, m in zip(A.Ms, A.multiplicities)])
+    if c in ("Product", "Sum", "KronSum"):
+        if c == "KronSum":
+            return base
+        return max([base] + [live_units(M, k) for M in A.Ms])
+    return base
+
+
 def property_bound(operand_bytes, A, linalg):
     k1, k2 = (K1_LINALG, K2_LINALG) if linalg else (K1_MATMAT, K2_MATMAT)
     return k1 * operand_bytes + k2 * leaf_bytes(A) + SLACK
@@ -338,6 +365,17 @@ def wide_operators(ctx, rng):
         return Dense(spd(rng, n) + 1j * (C - C.T))
     ops["kron_complex"] = Kronecker(ac(60), ac(100))
     ops["block_complex_mult"] = BlockDiag(ac(3), multiplicities=[2000])
+    # rectangular Kronecker factors: wide before tall, tall before wide, mixed (the order-aware bound of C19_kron_rect_bound)
+    R = lambda m, n: Dense(rng.standard_normal((m, n)))  # noqa
+    N_ = 1500 + 100 * s
+    ops["kron_rect_wide4_tall4"] = Kronecker(R(4, N_), R(N_, 4))
+    ops["kron_rect_row_col"] = Kronecker(R(1, 2 * N_), R(2 * N_, 1))
+    ops["kron_rect_tall4_wide4"] = Kronecker(R(N_, 4), R(4, N_))
+    ops["kron_rect_wide_sq_tall"] = Kronecker(R(3, 400), d(20), R(400 + s, 3))
+    ops["kron_rect_wide_tall_wide"] = Kronecker(R(2, 300), R(300, 5), R(4, 250))
+    ops["kron_rect_tall_wide_tall"] = Kronecker(R(60, 2), R(3, 500), R(500, 2))
+    ops["kron_rect_mild"] = Kronecker(R(30, 20), R(25, 40), R(12, 10))
+    ops["block_of_rect_kron"] = BlockDiag(Kronecker(R(2, 200), R(200, 2)), d(5), multiplicities=[40, 10])
     for nm, c in (("int", 3), ("float", 2.5), ("np.float32", np.float32(2.)), ("np.int64", np.int64(3)), ("ndarray0d", np.array(2.))):
         ops[f"scalar_{nm}_times_kron"] = c * Kronecker(d(20), d(20), d(25))
     ops["scalar_complex_times_kron"] = (1 + 1j) * Kronecker(d(20), d(20), d(25))
@@ -488,7 +526,7 @@ def run_cost(ctx, T, flags):
         m = model[cname] if modelled else None
         out, peak, dt, err = measure(lambda: A @ X)
         pe = peak / item
-        operand = max(X.nbytes, max(rows, cols) * kk * item)
+        operand = max(X.nbytes, live_units(A, kk) * item)
         pbound = property_bound(operand, A, linalg=False)
         worst_mm = max(worst_mm, peak / pbound)
         if peak > pbound and not err:
@@ -508,7 +546,7 @@ def run_cost(ctx, T, flags):
         bad = None
         if err:
             bad = f"product raised {err}"
-        elif not m["ok"]:
+        elif not m["ok"] and "rect" not in name:
             bad = "model says the operator is outside the structured class"
         elif name in ops and storage * 1000 > nn:
             bad = "generator produced an operator whose factor storage exceeds n^2/1000"
@@ -516,8 +554,10 @@ def run_cost(ctx, T, flags):
             bad = "peak above 3x the model's total allocation"
         elif 3 * pe + 4096 < m["maxalloc"]:
             bad = "peak below a third of the model's largest allocation (model over-counts)"
-        elif m["maxalloc"] > (rows + cols) * kk:
+        elif m["maxalloc"] > (rows + cols) * kk and "rect" not in name:
             bad = "model allocation above (rows+cols)*k (contradicts peak_bound)"
+        elif "kron_rect" in name and m["maxalloc"] > live_units(A, kk):
+            bad = "model allocation above the order-aware prefix bound (contradicts kron_rect_bound)"
         if bad:
             mism.append(dict(oracle_fail=False, what=bad + " (the property's own bound is respected)", **rec))
     # --- linear-algebra entry points with a structural rule, with and without explicit algorithm ---
@@ -869,7 +909,25 @@ def probe_flags(T):
     fl.append(dict(flag="inv_gmres_ambiguous", present=amb,
                    what="inv(Kronecker, GMRES()) raises AmbiguousLookupError: the GMRES base case has precedence 0 and ties with the structural rule (same defect as the C04 tuples inv(k,GMRES))",
                    witness="cola.inv(Kronecker(Dense,Dense), GMRES())", expected="the Kronecker rule", got=got))
+    # candidate (reported only once a `known:`/`fixed:` line names it): a TALL factor before a WIDE one -- the fixed
+    # left-to-right contraction applies the tall factor to un-reduced data; for column (x) row the intermediate is the
+    # full n x n matrix.  The order-aware bound (C19_kron_rect_bound) predicts exactly this, the order-free bound of the
+    # statement (a fixed multiple of the operand) is exceeded.
+    Nn = 1200
+    CR = Kronecker(Dense(rng.standard_normal((Nn, 1))), Dense(rng.standard_normal((1, Nn))))
+    xx = np.ones(Nn)
+    _, pk_cr, _, err_cr = measure(lambda: CR @ xx)
+    order_free = K1_MATMAT * Nn * 8 + K2_MATMAT * leaf_bytes(CR) + SLACK
+    cand = dict(flag="kron_tall_before_wide_intermediate", present=bool(err_cr is None and pk_cr > order_free),
+                what="Kronecker(tall, wide) @ x: the left-to-right contraction applies the tall factor first and allocates rows_1 x cols_2 x k entries "
+                     "(the full n x n matrix for column (x) row) although contracting the wide factor first needs only the operand size",
+                witness=f"Kronecker(Dense({Nn}x1), Dense(1x{Nn})) @ ones({Nn})", expected=f"peak <= {order_free} bytes (12 x operand + factors)",
+                got=dict(peak_bytes=int(pk_cr), dense_bytes=Nn * Nn * 8))
+    known_txt, fixed_txt = core.parse_known()
+    if any(k["property"] == "C19" and k["flag"] == cand["flag"] for k in known_txt + fixed_txt):
+        fl.append(cand)
     flags = {f["flag"]: f["present"] for f in fl}
+    flags["candidate_kron_tall_before_wide_intermediate"] = cand["present"]
     try:
         cola.inv(2. * Dense(S)) @ np.ones(2)
         flags["foreign_inv_scalarmul_device"] = False
